@@ -26,10 +26,11 @@ import (
 	"google.golang.org/grpc/resolver"
 )
 
-// c34Universe: address id (1-based) -> address string; families 4,6,4,0,6,0,4,4 (PickFirstTrace.Fam8).
-// Address 8 has the Addr string of address 1 but different Attributes: it is a different address
-// (Attributes are part of an address's identity, BalancerAttributes and Metadata are not).
-var c34Universe = []string{"10.0.0.1:80", "[2001:db8::2]:80", "10.0.0.3:80", "host4.example:80", "[2001:db8::5]:80", "noport6", "[::ffff:10.0.0.7]:80", "10.0.0.1:80"}
+// c34Universe: address id (1-based) -> address string; families 4,6,4,0,6,0,4,4,6 (PickFirstTrace.Fam9).
+// Address 8 has the Addr string of address 1 but different Attributes, address 9 the Addr string of
+// address 2 but a different ServerName: they are different addresses (Addr, ServerName and Attributes
+// are an address's identity, BalancerAttributes and Metadata are not).
+var c34Universe = []string{"10.0.0.1:80", "[2001:db8::2]:80", "10.0.0.3:80", "host4.example:80", "[2001:db8::5]:80", "noport6", "[::ffff:10.0.0.7]:80", "10.0.0.1:80", "[2001:db8::2]:80"}
 
 type c34AttrKey struct{}
 
@@ -39,6 +40,9 @@ func c34Addr(id, v int) resolver.Address {
 	a := resolver.Address{Addr: c34Universe[id-1]}
 	if id == 8 {
 		a.Attributes = attributes.New(c34AttrKey{}, "variant-8")
+	}
+	if id == 9 {
+		a.ServerName = "sn9.example"
 	}
 	if v&1 != 0 {
 		a.BalancerAttributes = attributes.New(c34AttrKey{}, v)
@@ -50,6 +54,12 @@ func c34Addr(id, v int) resolver.Address {
 }
 
 func c34AddrIDOf(a resolver.Address) int {
+	if a.ServerName != "" {
+		if a.ServerName == "sn9.example" && a.Addr == c34Universe[8] && a.Attributes == nil {
+			return 9
+		}
+		return 0
+	}
 	if a.Attributes != nil {
 		if a.Addr == c34Universe[7] {
 			return 8
@@ -60,7 +70,7 @@ func c34AddrIDOf(a resolver.Address) int {
 }
 
 func c34AddrID(a string) int {
-	for i, s := range c34Universe {
+	for i, s := range c34Universe[:7] {
 		if s == a {
 			return i + 1
 		}
@@ -412,6 +422,15 @@ func TestVerifC34Replay(t *testing.T) {
 			t.Fatal(err)
 		}
 		for k := range steps {
+			if i%4 >= 2 {
+				// model address 3 (IPv4) is played by universe address 8: same Addr string as address 1,
+				// different Attributes
+				for j, id := range steps[k].L {
+					if id == 3 {
+						steps[k].L[j] = 8
+					}
+				}
+			}
 			steps[k].E = i%2 == 1
 			if steps[k].A == "exitidle" && (i+k)%2 == 1 {
 				steps[k].Via = "pick"
@@ -447,6 +466,18 @@ func TestVerifC34Random(t *testing.T) {
 			if rng.Intn(3) == 0 {
 				nA = 1 + rng.Intn(2) // short lists: the last address is reached often
 			}
+			// the addresses of this run: a random subset of the universe; in a third of the runs it contains
+			// the pairs that share an Addr string (1 and 8, 2 and 9)
+			pool := rng.Perm(len(c34Universe))
+			for i := range pool {
+				pool[i]++
+			}
+			if rng.Intn(3) == 0 {
+				pool = append([]int{1, 8, 2, 9}, pool...)
+				if nA < 2 {
+					nA = 2
+				}
+			}
 			health := rng.Intn(3) == 0
 			pFail := []int{20, 50, 85}[rng.Intn(3)] // how often a connection attempt fails
 			endp := rng.Intn(2) == 0
@@ -467,7 +498,7 @@ func TestVerifC34Random(t *testing.T) {
 				}
 				l := make([]int, m)
 				for i := range l {
-					l[i] = 1 + rng.Intn(nA)
+					l[i] = pool[rng.Intn(nA)]
 				}
 				return l
 			}
@@ -573,7 +604,13 @@ func TestVerifC34Preprocess(t *testing.T) {
 	}
 	defer tr.Close()
 	maxLen := vlib.EnvInt("VERIF_N", 4)
-	nU := vlib.EnvInt("VERIF_UNIVERSE", 7)
+	ids := []int{}
+	for _, f := range strings.Split(vlib.Env("VERIF_UNIVERSE_IDS", "1,2,3,4,5,6,7,8,9"), ",") {
+		var id int
+		if _, err := fmt.Sscanf(f, "%d", &id); err == nil && id >= 1 && id <= len(c34Universe) {
+			ids = append(ids, id)
+		}
+	}
 	tr.Emit(map[string]any{"ev": "reset"})
 	var rec func(l []int)
 	rec = func(l []int) {
@@ -590,7 +627,7 @@ func TestVerifC34Preprocess(t *testing.T) {
 		if len(l) == maxLen {
 			return
 		}
-		for id := 1; id <= nU; id++ {
+		for _, id := range ids {
 			rec(append(l, id))
 		}
 	}
